@@ -1297,7 +1297,22 @@ impl ManageConnection for ServerPool {
                             queries: &prewarmer.queries,
                         };
 
-                        prewarmer.run().await?;
+                        // Still part of the attempt, and of the slot it holds: a server that
+                        // completed the startup and then says nothing must not keep it either.
+                        match tokio::time::timeout(
+                            std::time::Duration::from_millis(self.connect_timeout),
+                            prewarmer.run(),
+                        )
+                        .await
+                        {
+                            Ok(result) => result?,
+                            Err(_) => {
+                                return Err(Error::SocketError(format!(
+                                    "server {:?} did not answer the prewarm queries within {} ms",
+                                    self.address, self.connect_timeout
+                                )))
+                            }
+                        }
                     }
                 }
 
